@@ -759,6 +759,18 @@ class WorldB:
                     raise Violation("B3", "get_compiled_circuit returned something for an unknown circuit")
                 except KeyError:
                     pass
+                # the subscript form is a lookup as well: it must answer like the method and, above
+                # all, must not compile (i.e. change the association it is asked about)
+                before = len(self.pending)
+                try:
+                    got = c[sc]
+                except Exception:
+                    got = None
+                new = self._commit_pending(None, None, failed=True)
+                if got is not None or new or len(self.pending) != before or c.is_compiled(sc):
+                    raise Violation(
+                        "B4", f"context {cj}: the lookup ctx[sc] of a circuit that is not compiled there "
+                              f"returned a circuit / registered {len(new)} circuit(s) instead of failing")
         if hs:
             ci, s, cc = hs[op["h"] % len(hs)]
             for cj in range(len(self.ctxs)):
